@@ -309,3 +309,25 @@ theorem residuals_exist (s : Spec) (A B : QMat) (c : QVec) (X D : QMat) :
 
 end Model
 end IrisVerif.C18
+
+/-! ## non-vacuity -/
+
+namespace IrisVerif.C18
+open IrisVerif.LeastSquares
+
+-- the normal equations are met by a concrete non-trivial regression: y = (1, 2, 3) on an intercept and the trend (0, 1, 2)
+-- has the exact fit β = (1, 1)
+example : NormalEq (K := ℚ) (!![1, 2, 3] : Matrix (Fin 1) (Fin 3) ℚ) (!![1, 1, 1; 0, 1, 2] : Matrix (Fin 2) (Fin 3) ℚ)
+    (!![1, 1] : Matrix (Fin 1) (Fin 2) ℚ) := by
+  unfold NormalEq
+  ext i j
+  fin_cases i <;> fin_cases j <;>
+    simp [Matrix.mul_apply, Matrix.vecMul, dotProduct, Fin.sum_univ_succ] <;> norm_num
+
+-- … and its `X Xᵀ` is non-singular (hypothesis of `normalEq_unique`, `noise_free_recovery`, `minimiser_unique`)
+example : IsUnit ((!![1, 1, 1; 0, 1, 2] : Matrix (Fin 2) (Fin 3) ℚ) * (!![1, 1, 1; 0, 1, 2] : Matrix (Fin 2) (Fin 3) ℚ)ᵀ).det := by
+  rw [Matrix.det_fin_two]
+  simp [Matrix.mul_apply, Matrix.vecMul, dotProduct, Fin.sum_univ_succ]
+  norm_num
+
+end IrisVerif.C18
